@@ -14,7 +14,7 @@ def implItem (attrs : GToks) (implG trait_ selfTy wheres body : GToks) : GToks :
   attrs +++ "impl" ::: implG +++ trait_ +++ "for" ::: selfTy +++ wheres +++ brace body
 
 /-- `<ty as trait>::f` -/
-def ufcs (ty trait_ : GToks) (f : String) : GToks := angle (ty +++ "as" ::: trait_) +++ "::" ::: [mem f]
+def ufcs (ty trait_ : GToks) (f : String) : GToks := angle (ty +++ "as" ::: trait_) +++ [pathM f]
 
 /-- `match self { arms, }`; with no arms the scrutinee must be a value: `match *self {}` -/
 def matchSelf (arms : List GToks) : GToks :=
@@ -78,13 +78,13 @@ def OpsImpl.renderForm (o : OpsImpl) (l r : Bool) (w : WCB) : GToks :=
     let wheres := w.build fun ty =>
       let t := U ty.toks
       match l, r with
-      | true, true => "for" ::: angle ["'__a"] +++ "&" ::: "'__a" ::: t +++ ":" ::: trait_ +++ angle ("&" ::: "'__a" ::: t +++ "," ::: mem "Output" ::: "=" ::: t)
-      | true, false => "for" ::: angle ["'__a"] +++ "&" ::: "'__a" ::: t +++ ":" ::: trait_ +++ angle (t +++ "," ::: mem "Output" ::: "=" ::: t)
-      | false, true => "for" ::: angle ["'__a"] +++ t +++ ":" ::: trait_ +++ angle ("&" ::: "'__a" ::: t +++ "," ::: mem "Output" ::: "=" ::: t)
-      | false, false => t +++ ":" ::: trait_ +++ angle (t +++ "," ::: mem "Output" ::: "=" ::: t)
+      | true, true => "for" ::: angle ["'__a"] +++ "&" ::: "'__a" ::: t +++ ":" ::: trait_ +++ angle ("&" ::: "'__a" ::: t +++ "," ::: bindM "Output" ::: t)
+      | true, false => "for" ::: angle ["'__a"] +++ "&" ::: "'__a" ::: t +++ ":" ::: trait_ +++ angle (t +++ "," ::: bindM "Output" ::: t)
+      | false, true => "for" ::: angle ["'__a"] +++ t +++ ":" ::: trait_ +++ angle ("&" ::: "'__a" ::: t +++ "," ::: bindM "Output" ::: t)
+      | false, false => t +++ ":" ::: trait_ +++ angle (t +++ "," ::: bindM "Output" ::: t)
     implItem autoDerived implG (trait_ +++ angle rhsTy) selfTy wheres
-      (["type", mem "Output", "="] +++ this +++ [";", "fn", mem fn] +++ paren (["self", ",", "__rhs", ":"] +++ rhsTy) +++
-        ["->", "Self", "::", mem "Output"] +++ brace (u o.name ::: ctorArgs o.fieldsSrc values))
+      ([typeM "Output", "="] +++ this +++ [";", fnM fn] +++ paren (["self", ",", "__rhs", ":"] +++ rhsTy) +++
+        ["->", "Self", pathM "Output"] +++ brace (u o.name ::: ctorArgs o.fieldsSrc values))
   | .assign _ =>
     let rhsTy := withRef this r
     let exprs := o.fields.map fun f =>
@@ -96,7 +96,7 @@ def OpsImpl.renderForm (o : OpsImpl) (l r : Bool) (w : WCB) : GToks :=
       if r then "for" ::: angle ["'__a"] +++ t +++ ":" ::: trait_ +++ angle ("&" ::: "'__a" ::: t)
       else t +++ ":" ::: trait_ +++ angle t
     implItem autoDerived implG (trait_ +++ angle rhsTy) this wheres
-      (["fn", mem fn] +++ paren (["&", "mut", "self", ",", "__rhs", ":"] +++ rhsTy) +++ brace (termBy ";" exprs))
+      ([fnM fn] +++ paren (["&", "mut", "self", ",", "__rhs", ":"] +++ rhsTy) +++ brace (termBy ";" exprs))
   | .un _ =>
     let selfTy := withRef this l
     let values := o.fields.map fun f =>
@@ -104,11 +104,11 @@ def OpsImpl.renderForm (o : OpsImpl) (l r : Bool) (w : WCB) : GToks :=
       ufcs (refFieldTy f.field.ty l) trait_ fn +++ paren (withRef (memberOf "self" f) l)
     let wheres := w.build fun ty =>
       let t := U ty.toks
-      if l then "for" ::: angle ["'__a"] +++ "&" ::: "'__a" ::: t +++ ":" ::: trait_ +++ angle (mem "Output" ::: "=" ::: t)
-      else t +++ ":" ::: trait_ +++ angle (mem "Output" ::: "=" ::: t)
+      if l then "for" ::: angle ["'__a"] +++ "&" ::: "'__a" ::: t +++ ":" ::: trait_ +++ angle (bindM "Output" ::: t)
+      else t +++ ":" ::: trait_ +++ angle (bindM "Output" ::: t)
     implItem autoDerived implG trait_ selfTy wheres
-      (["type", mem "Output", "="] +++ this +++ [";", "fn", mem fn] +++ paren ["self"] +++
-        ["->", "Self", "::", mem "Output"] +++ brace (u o.name ::: ctorArgs o.fieldsSrc values))
+      ([typeM "Output", "="] +++ this +++ [";", fnM fn] +++ paren ["self"] +++
+        ["->", "Self", pathM "Output"] +++ brace (u o.name ::: ctorArgs o.fieldsSrc values))
   | _ => []
 
 def OpsImpl.render (o : OpsImpl) : List GToks :=
@@ -154,8 +154,8 @@ def CloneImpl.render (c : CloneImpl) : GToks :=
       let args := fields.map fun f => ufcs (U f.field.ty.toks) tr "clone" +++ paren ("&" ::: memberOf "self" f)
       let cfs := fields.map fun f =>
         ufcs (U f.field.ty.toks) tr "clone_from" +++ paren ("&" ::: "mut" ::: memberOf "self" f +++ "," ::: "&" ::: memberOf "__source" f)
-      ["fn", mem "clone"] +++ paren ["&", "self"] +++ ["->", "Self"] +++ brace (u c.name ::: ctorArgs src args) +++
-      ["fn", mem "clone_from"] +++ paren ["&", "mut", "self", ",", "__source", ":", "&", "Self"] +++ brace (termBy ";" cfs)
+      [fnM "clone"] +++ paren ["&", "self"] +++ ["->", "Self"] +++ brace (u c.name ::: ctorArgs src args) +++
+      [fnM "clone_from"] +++ paren ["&", "mut", "self", ",", "__source", ":", "&", "Self"] +++ brace (termBy ";" cfs)
     | .enum_ vs =>
       let armsClone := vs.map fun v =>
         let patL := ctorArgs v.variant.fields (v.fields.map fun f => [f.makeIdent "__l"])
@@ -169,9 +169,9 @@ def CloneImpl.render (c : CloneImpl) : GToks :=
           ufcs (U f.field.ty.toks) tr "clone_from" +++ paren [f.makeIdent "__l", ",", f.makeIdent "__r"]
         paren (["Self", "::", u v.variant.name] +++ patL +++ [",", "Self", "::", u v.variant.name] +++ patR) +++
           "=>" ::: brace (termBy ";" cfs)
-      ["fn", mem "clone"] +++ paren ["&", "self"] +++ ["->", "Self"] +++
+      [fnM "clone"] +++ paren ["&", "self"] +++ ["->", "Self"] +++
         brace (matchSelf armsClone) +++
-      ["fn", mem "clone_from"] +++ paren ["&", "mut", "self", ",", "__source", ":", "&", "Self"] +++
+      [fnM "clone_from"] +++ paren ["&", "mut", "self", ",", "__source", ":", "&", "Self"] +++
         brace ("match" ::: paren ["self", ",", "__source"] +++ brace (termBy "," armsFrom +++
           paren ["__lhs", ",", "__rhs"] +++ ["=>", "*", "__lhs", "="] +++ ufcs ["Self"] (absPath ["core", "clone", "Clone"]) "clone" +++
             paren ["__rhs"] +++ [","]))
@@ -278,11 +278,11 @@ def nameLit (t : Tok) : Tok := "\"" ++ unraw t ++ "\""
 def DebugExpr.render (toExpr : FieldE → GToks) : DebugExpr → GToks
   | .transparent f => absPath ["core", "fmt", "Debug", "fmt"] +++ paren (toExpr f +++ [",", "__f"])
   | .builder named ident fields =>
-    ["__f", ".", mem (if named then "debug_struct" else "debug_tuple")] +++ paren [nameLit ident] +++
+    ["__f", dotM (if named then "debug_struct" else "debug_tuple")] +++ paren [nameLit ident] +++
       (fields.flatMap fun f =>
-        if named then [".", mem "field"] +++ paren (nameLit f.member ::: "," ::: toExpr f)
-        else [".", mem "field"] +++ paren (toExpr f)) +++
-      [".", mem "finish", "(", ")"]
+        if named then [dotM "field"] +++ paren (nameLit f.member ::: "," ::: toExpr f)
+        else [dotM "field"] +++ paren (toExpr f)) +++
+      [dotM "finish", "(", ")"]
 
 def DebugImpl.render (d : DebugImpl) : GToks :=
   let tr := Kind.debug.path
@@ -294,7 +294,7 @@ def DebugImpl.render (d : DebugImpl) : GToks :=
         v.makePat "__field" +++ "=>" ::: x.render fun f => [f.makeIdent "__field"])
   implItem autoDerived (U d.generics.implToks) tr (thisTyToks d.name d.generics)
     (d.wc.build fun ty => U ty.toks +++ ":" ::: tr)
-    (["fn", mem "fmt"] +++ paren (["&", "self", ",", "__f", ":", "&", "mut"] +++ absPath ["core", "fmt", "Formatter"]) +++
+    ([fnM "fmt"] +++ paren (["&", "self", ",", "__f", ":", "&", "mut"] +++ absPath ["core", "fmt", "Formatter"]) +++
       "->" ::: absPath ["core", "fmt", "Result"] +++ brace body)
 
 /-! ## Default -/
@@ -364,7 +364,7 @@ def buildDefaultEnum (en : ItemEnum) (e : Entry) (h : HAttrs) (variants : List V
            body := .ctor [en.name, "::", v.variant.name] v.variant.fields vals }
 
 def DefVal.render : DefVal → GToks
-  | .into ty e => absPath ["core", "convert", "Into"] +++ "::" ::: angle (U ty.toks) +++ "::" ::: mem "into" ::: paren (U e)
+  | .into ty e => absPath ["core", "convert", "Into"] +++ "::" ::: angle (U ty.toks) +++ pathM "into" ::: paren (U e)
   | .raw e _ => U e
   | .dflt ty => ufcs (U ty.toks) Kind.dflt.path "default" +++ ["(", ")"]
 
@@ -377,7 +377,7 @@ def DefaultImpl.render (d : DefaultImpl) : GToks :=
     | .ctor path src vals => U path +++ ctorArgs src (vals.map DefVal.render)
   implItem autoDerived (U d.generics.implToks) tr (thisTyToks d.name d.generics)
     (d.wc.build fun ty => U ty.toks +++ ":" ::: tr)
-    (["fn", mem "default", "(", ")", "->", "Self"] +++ brace value)
+    ([fnM "default", "(", ")", "->", "Self"] +++ brace value)
 
 /-! ## Deref / DerefMut -/
 
@@ -402,11 +402,11 @@ def DerefImpl.render (d : DerefImpl) : GToks :=
   let content : GToks :=
     -- the return type is spelled as the trait's `Target` (a bare trait object as field type would
     -- otherwise get the reference's lifetime as its object lifetime)
-    let target : GToks := angle (["Self", "as"] +++ Kind.deref.path) +++ ["::", mem "Target"]
+    let target : GToks := angle (["Self", "as"] +++ Kind.deref.path) +++ [pathM "Target"]
     if d.mut_ then
-      ["fn", mem "deref_mut"] +++ paren ["&", "mut", "self"] +++ ["->", "&", "mut"] +++ target +++ brace ["&", "mut", "self", ".", u d.field.member]
+      [fnM "deref_mut"] +++ paren ["&", "mut", "self"] +++ ["->", "&", "mut"] +++ target +++ brace ["&", "mut", "self", ".", u d.field.member]
     else
-      ["type", mem "Target", "="] +++ ty +++ [";", "fn", mem "deref"] +++ paren ["&", "self"] +++ ["->", "&"] +++ target +++
+      [typeM "Target", "="] +++ ty +++ [";", fnM "deref"] +++ paren ["&", "self"] +++ ["->", "&"] +++ target +++
         brace ["&", "self", ".", u d.field.member]
   implItem autoDerived (U d.generics.implToks) tr (thisTyToks d.name d.generics)
     (d.wc.build fun t => U t.toks +++ ":" ::: tr) content
